@@ -69,6 +69,16 @@ def js_mod(a: float, b: float) -> float:
     return math.copysign(0.0, a) if r == 0 else r
 
 
+class _JSThrow(Exception):
+    """Internal carrier for a script exception whose handler lies below native code
+    (an array method, accessor, conversion...) that is still running on the host
+    stack: it unwinds the host frames up to the interpreter loop that owns the handler."""
+
+    def __init__(self, value: JSValue):
+        super().__init__("uncaught script exception in native code")
+        self.value = value
+
+
 @dataclass
 class ClosureCell:
     """A cell for closure variable - allows sharing between scopes."""
@@ -149,6 +159,8 @@ class VM:
         self.exception: Optional[JSValue] = None
         # (frame_idx, catch_ip, operand stack depth when the try block was entered)
         self.exception_handlers: List[Tuple[int, int, int]] = []
+        # call-stack depth at entry of each native -> script call still in progress
+        self._native_bases: List[int] = []
 
     def run(self, compiled: CompiledFunction) -> JSValue:
         """Run compiled bytecode and return result."""
@@ -239,21 +251,29 @@ class VM:
                 arg = bytecode[frame.ip]
                 frame.ip += 1
 
-            # Execute opcode - wrap in try/except to catch Python JS exceptions
-            try:
-                self._execute_opcode(op, arg, frame)
-            except JSTypeError as e:
-                # Convert Python JSTypeError to JavaScript TypeError
-                self._handle_python_exception("TypeError", str(e))
-            except JSReferenceError as e:
-                # Convert Python JSReferenceError to JavaScript ReferenceError
-                self._handle_python_exception("ReferenceError", str(e))
+            self._execute_opcode_guarded(op, arg, frame)
 
             # Check if frame was popped (return)
             if not self.call_stack:
                 break
 
         return self.stack.pop() if self.stack else UNDEFINED
+
+    def _execute_opcode_guarded(
+        self, op: OpCode, arg: Optional[int], frame: CallFrame
+    ) -> None:
+        """Execute one opcode, turning host-side JS errors into script exceptions."""
+        try:
+            self._execute_opcode(op, arg, frame)
+        except JSTypeError as e:
+            # Convert Python JSTypeError to JavaScript TypeError
+            self._handle_python_exception("TypeError", str(e))
+        except JSReferenceError as e:
+            # Convert Python JSReferenceError to JavaScript ReferenceError
+            self._handle_python_exception("ReferenceError", str(e))
+        except _JSThrow as e:
+            # A throw that crossed native code: look for the handler again from here
+            self._throw(e.value)
 
     def _execute_opcode(self, op: OpCode, arg: Optional[int], frame: CallFrame) -> None:
         """Execute a single opcode."""
@@ -2321,6 +2341,19 @@ class VM:
     ) -> JSValue:
         """Call a callback function synchronously and return the result."""
         if isinstance(callback, JSFunction):
+            # Remember where native code handed over to script code (see _throw)
+            self._native_bases.append(len(self.call_stack))
+            try:
+                return self._run_callback(callback, args, this_val)
+            finally:
+                self._native_bases.pop()
+        return self._run_callback(callback, args, this_val)
+
+    def _run_callback(
+        self, callback: JSValue, args: List[JSValue], this_val: JSValue = None
+    ) -> JSValue:
+        """Run a callback until its frame returns (the loop behind _call_callback)."""
+        if isinstance(callback, JSFunction):
             # Save current stack position AND call stack depth
             stack_len = len(self.stack)
             call_stack_len = len(self.call_stack)
@@ -2381,7 +2414,7 @@ class VM:
                     arg = bytecode[frame.ip]
                     frame.ip += 1
 
-                self._execute_opcode(op, arg, frame)
+                self._execute_opcode_guarded(op, arg, frame)
 
             # Get result from stack
             if len(self.stack) > stack_len:
@@ -2515,6 +2548,13 @@ class VM:
                 exc.set("columnNumber", column)
 
         if self.exception_handlers:
+            if (
+                self._native_bases
+                and self.exception_handlers[-1][0] < self._native_bases[-1]
+            ):
+                # The handler's frame is below native code still running on the
+                # host stack: unwind that first, the interpreter loop re-throws.
+                raise _JSThrow(exc)
             frame_idx, catch_ip, stack_depth = self.exception_handlers.pop()
 
             # Unwind call stack
